@@ -109,6 +109,8 @@ type Cmd struct {
 	// InjectErr (e.g. "EIO", "ENOSPC"); the strace log (Strace must be set) then carries "(INJECTED)" lines.
 	InjectPath, InjectCall, InjectErr string
 	InjectWhen                        string // "" = every call, otherwise strace's when= expression (e.g. "2+": all but the first)
+	// NoFile > 0 runs the process with that limit of open file descriptors (prlimit --nofile; not combined with Strace)
+	NoFile int
 	retries                           int
 }
 
@@ -233,6 +235,8 @@ func Run(c Cmd) *Result {
 			"-e", "trace=%file,ftruncate,fchmod,fchown,fchmodat,fchownat", c.Bin}
 		args = append(args, c.Args...)
 		cmd = exec.CommandContext(ctx, "strace", args...)
+	} else if c.NoFile > 0 {
+		cmd = exec.CommandContext(ctx, "prlimit", append([]string{fmt.Sprintf("--nofile=%d:%d", c.NoFile, c.NoFile), c.Bin}, c.Args...)...)
 	} else {
 		cmd = exec.CommandContext(ctx, c.Bin, c.Args...)
 	}
